@@ -559,6 +559,11 @@ func vpNewHdrScn(maxCps int, bothAges bool) *vpHdrScn {
 	if s.e == nil {
 		return nil
 	}
+	if vpParam("startedbefore", 0) == 1 && vpRange("headersHandledBefore", 0, 1) == 1 {
+		// an earlier headers message has already been handled in this session
+		// (the first header it pushed is remembered as the sync start)
+		s.e.bm.startHeader = s.e.bm.headerList.Back()
+	}
 	s.plist = list.New()
 	for i := range s.peers {
 		s.peers[i] = vpMkServerPeer([]string{"10.0.0.1:8333", "10.0.0.2:8333"}[i])
